@@ -143,7 +143,7 @@ func childMain(args []string) {
 			out.Flush()
 			var avail int32
 			runtime.ReadMemStats(&m0)
-			o := vh.Guard(func() { avail = decode(f[1], b) })
+			o := vh.Guard(func() { avail, _ = decodeFull(f[1], b) })
 			runtime.ReadMemStats(&m1)
 			alloc := int64(m1.TotalAlloc - m0.TotalAlloc)
 			class := "value"
